@@ -30,6 +30,12 @@ checks = {
  "C16": dict(design="4/C16",
    text="Per node kind x the four WithTokens/WithPositions combinations: symbolic execution of the dumper on a synthetic node with every child/token/value/position slot symbolically present or absent; the dump text is read back by a reader for the dumper's layout and compared with the node through the generated slot accessors: literal type, every non-empty slot exactly once under its field name (Val for byte values, Position for positions), tokens/positions only when requested, equal content recursively, nothing else.",
    note="Finite presence space enumerated through the solver. Marker values are concrete ASCII; quoting of arbitrary bytes is covered on parsed trees only where listed in the evidence. Syntactic validity is decided by the harness's reader (natively the same reader), not by go/parser."),
+ "C13": dict(design="4/C13",
+   text="For every parsed tree of the bounded symbolic inputs: a deep snapshot (object identities and every stored value of every node, token, free-floating token and position), the source buffer and the engine's static-memory write monitor are compared before/after each of print, traverse (Null and recording visitor), resolve, dump (with and without tokens/positions) - one inductive step from an arbitrary parsed tree, which covers operation sequences of any length; a second round in the opposite order must reproduce the first round's outputs.",
+   note="Bounds: inputs as listed in the evidence; resolve only on error-free trees. Paths on which strconv.Quote meets a symbolic non-ASCII byte are inconclusive for the dump step (counted in the evidence). The static-memory verdict comes from the engine's write monitor and has no native counterpart."),
+ "C11": dict(design="4/C11",
+   text="Not a schedule exploration. Decided symbolically for all inputs of the bound: (1) footprint - no library code writes to memory that exists before the pipeline starts (package-level variables and everything reachable from them, observed by the engine's static-memory write monitor) during parse (both grammars), print, dump, traverse, resolve; two parses of the same input share no objects; (2) determinism - parsing the same symbolic input twice yields term-identical trees and errors, print/dump of both agree; (3) the SSA of every executed library function is scanned for go/select/channel operations, map iteration and calls into time, rand, os, sync, runtime, unsafe, reflect. Disjoint footprints + the Go memory model give race freedom and schedule independence.",
+   note="The step from footprint disjointness to 'all interleavings' is an argument, not a solver query; cmd/php-parser's worker/channel protocol is outside the claim. Bounds on inputs as in the evidence."),
 }
 na = {}
 ALL = ["C%02d" % i for i in range(1, 19)]
